@@ -18,6 +18,7 @@ var c14CP *eng.Kind[CPCase]
 // SpaceCase: one lexeme sequence, all joiner assignments are explored inside the judge.
 type SpaceCase struct {
 	Lexemes []string `json:"lexemes"`
+	Reduced bool     `json:"reduced,omitempty"` // longer formulas: joiners {none, space, newline}, no edge trivia
 }
 
 // CPCase: a block of code points [From, To).
@@ -194,6 +195,7 @@ func judgeScan(text []byte) *eng.Fail {
 
 var spaceJoiners = []string{"", " ", "\t", "\u00A0", "\n"}
 var edgeJoiners = []string{"", " ", "\n"}
+var reducedJoiners = []string{"", " ", "\n"}
 
 func tokSig(toks []ref.Tok) (string, string, bool) {
 	var a, lb strings.Builder
@@ -256,7 +258,11 @@ func judgeSpacing(c SpaceCase) *eng.Fail {
 			b = append(b, edgeJoiners[gaps[0]]...)
 			for j, lx := range c.Lexemes {
 				if j > 0 {
-					b = append(b, spaceJoiners[gaps[j]]...)
+					if c.Reduced {
+						b = append(b, reducedJoiners[gaps[j]]...)
+					} else {
+						b = append(b, spaceJoiners[gaps[j]]...)
+					}
 				}
 				b = append(b, lx...)
 			}
@@ -283,6 +289,12 @@ func judgeSpacing(c SpaceCase) *eng.Fail {
 		n := len(spaceJoiners)
 		if i == 0 || i == k {
 			n = len(edgeJoiners)
+		}
+		if c.Reduced {
+			n = 1
+			if i != 0 && i != k {
+				n = 3
+			}
 		}
 		for g := 0; g < n; g++ {
 			gaps[i] = g
@@ -375,8 +387,23 @@ func runC14(w *eng.W) {
 			w.Trace(1)
 			w.Note("leg:spacing", 1)
 			w.Sample("spacing", lex)
-			c14Space.Do(w, SpaceCase{lex})
+			c14Space.Do(w, SpaceCase{Lexemes: lex})
 		})
+	}
+	// whole formulas: every placement of nothing / space / newline between their tokens
+	formulas := []string{"a . b + c", "a !. b ( 1 )", "f ( a . b , c )", "a . b . c", "a . b ? 1 : 2", "[ a . b , - c ]", "typeof a . b", "a . b ( c ) . d", "$x = a . b , $x", "! a . true", "( a . b ) * 2", "a ?? b . c", "f ( xs ... )", "a . b == 'c'"}
+	for _, fm := range formulas {
+		if !w.Take() {
+			continue
+		}
+		lex := strings.Fields(fm)
+		w.State(1)
+		w.Trans(1)
+		w.Trace(1)
+		w.Note("leg:spacing-formulas", 1)
+		c := SpaceCase{Lexemes: lex, Reduced: true}
+		w.Sample("spacing-formulas", c)
+		c14Space.Do(w, c)
 	}
 	// scanner differential on glued lexemes (no separator at all) and on raw bytes
 	for l := 1; l <= 3; l++ {
